@@ -120,6 +120,7 @@ def run(check):
                 jobs += accessor_jobs(check, Q, b, T, tag)
         for cls in TENSORS:
             jobs += tensor_accessor_jobs(check, Q, Q.canon(cls, T), T, tag)
+    signature_obligations(check)
     check.log('%d IEEE obligations' % len(jobs))
     run_jobs(check, jobs)
 
@@ -207,3 +208,85 @@ def sym_index(comps, c):
     if len(c) == 2 and c[::-1] in comps:     # symmetric dyad: yx is stored in xy
         return comps.index(c[::-1])
     return None
+
+
+def signature_obligations(check):
+    """Accessors and mutators expose exactly the stored value only if they carry it in the numeric type of the
+    instantiation: in the double and long double instantiations no member (other than the converting member templates) may
+    take or return a plain number of a narrower floating type - the value would be narrowed silently at the call site."""
+    from ..core import pmap
+    types = ['double', 'long double']       # a parameter of a WIDER type loses nothing; only narrower ones are flagged
+    RANK = {'float': 0, 'double': 1, 'long double': 2}
+    loaded = pmap(lambda T: Quant(check, types=(T,), other_types=(), conv=False, hash_=False), types)
+    total = 0
+    for T, Q in zip(types, loaded):
+        low = Q.low
+        tag = T.replace(' ', '_')
+        for canon, r in sorted(low.records.items()):
+            if not (r.targs and r.targs[-1] == T):
+                continue
+            bad = []
+            n = 0
+            for f in Q.methods(canon):
+                if any(x.get('kind') == 'TemplateArgument' for x in f.node.get('inner', ())):
+                    continue          # member templates (converting constructor / assignment, Create<u>, StaticValue<u>)
+                n += 1
+                for pn, pt in f.params:
+                    vt = pt[1] if pt[0] in ('ptr', 'ref') else pt
+                    if vt[0] == 'f' and RANK[vt[1]] < RANK[T]:
+                        bad.append((f, 'parameter %s of %s has the narrower type %s' % (pn, f.qualname, vt[1])))
+                rt = f.ret[1] if f.ret[0] in ('ptr', 'ref') else f.ret
+                if rt[0] == 'f' and RANK[rt[1]] < RANK[T]:
+                    bad.append((f, '%s returns the narrower type %s' % (f.qualname, rt[1])))
+            if n == 0:
+                continue
+            total += n
+            ob = Ob('C17.signature.%s.%s' % (r.template or canon, tag), 'static', canon, None)
+            ob.backend = 'lowered signatures'
+            ob.text = 'no plain floating parameter or return value of the %d members of %s is narrower than %s (member templates excepted)' % (n, canon, T)
+            ob.status = 'discharged' if not bad else 'failed'
+            check.add(ob)
+            if bad:
+                ob.detail = '; '.join(w for _, w in bad[:3])
+                adjudicate_signature(check, low, ob, bad[0][0], canon, T)
+    check.extra['signature_members_checked'] = total
+    if total < 4000:
+        check.error('must-fire: expected >= 4000 members under the signature obligation, found %d' % total)
+
+
+def adjudicate_signature(check, low, ob, f, canon, T):
+    """Native: pass a value that only the instantiation's own type can hold and look for it in the object / result."""
+    rec = {'property': 'C17', 'obligation': ob.name, 'function': f.qualname, 'verifier_output': ob.detail, 'confirmed': False}
+    try:
+        from ..ieeeob import default_includes
+        from ..tu import includes
+        cpp_t = replay.cpp_record(low, canon)
+        nm = f.node.get('name')
+        n = len(replay.leaf_types(low, ('rec', canon)))
+        args = []
+        for pn, pt in f.params[1:]:
+            vt = pt[1] if pt[0] in ('ptr', 'ref') else pt
+            if vt[0] != 'f':
+                raise Unsupported('replay of a %s parameter' % (vt[0],))
+            args.append('v')
+        if f.kind == 'ctor':
+            call = '%s q(%s); const %s* p = reinterpret_cast<const %s*>(&q);' % (cpp_t, ', '.join(args), T, T)
+        elif f.kind == 'method' and f.ret == ('void',):
+            call = 'alignas(16) unsigned char buf[sizeof(%s)] = {}; %s& q = *reinterpret_cast<%s*>(buf); q.%s(%s); const %s* p = reinterpret_cast<const %s*>(buf);' % (
+                cpp_t, cpp_t, cpp_t, nm, ', '.join(args), T, T)
+        else:
+            raise Unsupported('replay of %s' % f.qualname)
+        cpp = (includes(default_includes(low, f)) + '#include <cstdio>\nint main() {\n  const %s v = static_cast<%s>(1) / static_cast<%s>(3);\n  %s\n'
+               '  bool found = false; for (int i = 0; i < %d; ++i) found = found || p[i] == v;\n'
+               '  if (!found) { std::printf("MISMATCH %s with the %s value 1/3: no stored component equals the value passed (first component %%.21Lg, value %%.21Lg)\\n", (long double)p[0], (long double)v); return 1; }\n  return 0;\n}\n') % (
+                   T, T, T, call, n, f.qualname.replace('"', ''), T)
+        r, err = replay.build_and_run(cpp, os.path.join(check.work, 'replay'), 'r_' + re.sub(r'\W+', '_', ob.name)[:120])
+        if err:
+            rec['replay_error'] = err[:600]
+        else:
+            rec['cpp'], rec['native_output'] = cpp, r.stdout
+            if 'MISMATCH' in r.stdout:
+                rec['confirmed'], rec['mismatch'], rec['inputs'] = True, [r.stdout.strip()], {'v': '1/3 in ' + T}
+    except Exception as e:
+        rec['replay_error'] = '%s: %s' % (type(e).__name__, e)
+    check.violations.append((ob, write_replay(check, ob, rec), '' if rec['confirmed'] else 'no-failing-input-found'))
